@@ -122,6 +122,7 @@ type Ctx struct {
 	obligs    []*Oblig
 	funcsSeen map[string]bool
 	cfg       string // "" = default build configuration; else the name of the extra configuration (thorough tier)
+	callerIdx map[*ssa.Function][]ssa.CallInstruction
 }
 
 func (c *Ctx) thorough() bool { return c.tier == "thorough" }
